@@ -526,6 +526,85 @@ func checkStatements(w *World, r *Result) {
 		})
 		return true
 	})
+	if !numOK {
+		// the comparison may be a callback handed to a helper that calls it with the index of its own pass over the
+		// columns: `joinColumns(cols, sep, func(i int, c Column) string { … i+1 … })`
+		ast.Inspect(cc.Decl.Body, func(x ast.Node) bool {
+			hcall, ok := x.(*ast.CallExpr)
+			if !ok {
+				return true
+			}
+			h := w.Funcs[calleeOf(cinfo, hcall)]
+			if h == nil || h.Decl.Body == nil || h.Pkg != cc.Pkg {
+				return true
+			}
+			for j, a := range hcall.Args {
+				lit, ok := ast.Unparen(a).(*ast.FuncLit)
+				if !ok {
+					continue
+				}
+				// which literal parameter is incremented in the `= $%d` hole
+				k := -1
+				ast.Inspect(lit.Body, func(y ast.Node) bool {
+					call := sprintfView(cinfo, y)
+					if call == nil {
+						return true
+					}
+					format, vas := verbArgs(cinfo, call)
+					if strings.Contains(format, "= $%d") && len(vas) == 2 {
+						if be, ok := ast.Unparen(vas[1].arg).(*ast.BinaryExpr); ok && be.Op == token.ADD && identOf(be.X) != nil {
+							if one, ok := constInt(cinfo, be.Y); ok && one == 1 {
+								n := 0
+								for _, f := range lit.Type.Params.List {
+									for _, nm := range f.Names {
+										if cinfo.Defs[nm] == objOf(cinfo, identOf(be.X)) {
+											k = n
+										}
+										n++
+									}
+								}
+							}
+						}
+					}
+					return true
+				})
+				if k < 0 {
+					continue
+				}
+				// in the helper: the callback parameter is called with, at position k, the key of a range over a
+				// slice parameter
+				hinfo := h.Pkg.TypesInfo
+				var cb types.Object
+				n := 0
+				for _, f := range h.Decl.Type.Params.List {
+					for _, nm := range f.Names {
+						if n == j {
+							cb = hinfo.Defs[nm]
+						}
+						n++
+					}
+				}
+				ast.Inspect(h.Decl.Body, func(y ast.Node) bool {
+					rs, ok := y.(*ast.RangeStmt)
+					if !ok || identOf(rs.Key) == nil || identOf(rs.X) == nil || paramIndex(h, objOf(hinfo, identOf(rs.X))) < 0 {
+						return true
+					}
+					ast.Inspect(rs.Body, func(z ast.Node) bool {
+						c2, ok := z.(*ast.CallExpr)
+						if !ok || identOf(c2.Fun) == nil || objOf(hinfo, identOf(c2.Fun)) != cb || k >= len(c2.Args) {
+							return true
+						}
+						if id := identOf(c2.Args[k]); id != nil && objOf(hinfo, id) == hinfo.Defs[identOf(rs.Key)] {
+							numOK = true
+						}
+						return true
+					})
+					return true
+				})
+			}
+			return true
+		})
+	}
 	r.cond(numOK, "TPL-C05c", cc.Name, "comparison i uses placeholder $i+1", fnPos(w, cc), "`<col> = $%d` with the range index + 1", "the comparisons built for unique/select keys are not numbered index+1")
 	for _, q := range []string{"generator/go/sqlcrud.(context).generateSelectByUniques", "generator/go/sqlcrud.(context).generateSelectByKeys"} {
 		fi := w.MustFunc(q)
@@ -553,6 +632,8 @@ func checkStatements(w *World, r *Result) {
 					args["cmp"] = es(call.Args[0])
 				case sig.Results().Len() == 2 && sig.Results().At(0).Type().String() == "string" && sig.Results().At(1).Type().String() == "string":
 					args["vars"] = es(call.Args[0])
+				case sig.Results().Len() == 1 && allStringFields(sig.Results().At(0).Type()) >= 2:
+					args["vars"] = es(call.Args[0]) // the two texts travel in a small struct
 				}
 				return true
 			})
@@ -856,4 +937,19 @@ func checkScanLoops(w *World, r *Result) {
 		Undecided("TPL-C05s: fewer row loops than confirmed by hand in the sqlcrud templates (%d)", nloops)
 	}
 	r.ok("TPL-C05s", "generator/go/sqlcrud.<templates>", "row loops read into a fresh value", "generator/go/sqlcrud", fmt.Sprintf("%d `for rs.Next()` loops of the instantiated templates: none scans into a variable declared outside the loop", nloops), true)
+}
+
+
+// allStringFields: the number of fields of a struct type all of whose fields are strings (0 otherwise).
+func allStringFields(t types.Type) int {
+	st, ok := t.Underlying().(*types.Struct)
+	if !ok {
+		return 0
+	}
+	for i := 0; i < st.NumFields(); i++ {
+		if !isStringType(st.Field(i).Type()) {
+			return 0
+		}
+	}
+	return st.NumFields()
 }
